@@ -40,6 +40,9 @@ def _case(draw):
         b = names[0]
         spec["glyphs"].append({"name": "twice", "width": 500, "unicodes": [], "components": [{"base": b, "t": [1, 0, 0, 1, 0, 0]}, {"base": b, "t": [1, 0, 0, 1, 300, 0]}]})
         spec["glyphs"].append({"name": "nest", "width": 500, "unicodes": [], "components": [{"base": "twice", "t": [1, 0, 0, 1, 0, 50]}, {"base": b, "t": [1, 0, 0, 1, 10, 0]}]})
+        if draw(st.booleans()):
+            # a component scaled exactly to the F2Dot14 limit: still representable, still a component
+            spec["glyphs"].append({"name": "dbl", "width": 500, "unicodes": [], "components": [{"base": b, "t": draw(st.sampled_from([[2, 0, 0, 2, 0, 0], [-2, 0, 0, 1, 0, 0], [1, 0, 0, 2.0, 5, 0]]))}]})
     names = [g["name"] for g in spec["glyphs"] if g["name"] != ".notdef"]
     nm = draw(st.integers(2, 4))
     locs = [0, 1000, 500, 250][:nm]
@@ -69,6 +72,8 @@ def _case(draw):
         fam["sparse"] = {"k": 4, "loc": {"Weight": draw(st.sampled_from([300, 600, 850]))}, "names": sorted(sub)}
     if fam.get("sparse") and draw(st.sampled_from([True, False, False])):
         fam["sparse"]["own_ufo"] = True
+    if fam.get("sparse") and draw(st.sampled_from([True, False, False])):
+        fam["sparse"]["listed"] = "second"
     opts = {}
     if entry.startswith("TTF") and draw(st.booleans()):
         opts["flattenComponents"] = True
@@ -92,6 +97,18 @@ def _case(draw):
         fam["sparse"] = {"k": 4, "loc": {"Weight": draw(st.sampled_from([300, 600, 850]))}, "names": sorted((set((fam.get("sparse") or {}).get("names", [])) | {"mixb", "trb"}) - {b})}
         spec.setdefault("lib", {})["com.github.googlei18n.ufo2ft.filters"] = [{"name": "decomposeTransformedComponents"}]
         opts.pop("skipExportGlyphs", None)
+    if entry != "TTFs" and len(simple) >= 2 and draw(st.sampled_from([True, False, False, False])):
+        # a sparse source listed between the full masters that defines neither a mixed glyph nor that glyph's base: the masters after it still decompose
+        # the mixed glyph from their own layer
+        b2 = simple[1]
+        spec["glyphs"].append({"name": "mixo", "width": 500, "unicodes": [], "contours": [[[0, 0, "line"], [30, 0, "line"], [10, 40, "line"]]], "components": [{"base": b2, "t": [1, 0, 0, 1, 50, 0]}]})
+        keep = sorted(set((fam.get("sparse") or {}).get("names", [])) - {"mixo", b2}) or [simple[0]]
+        fam["sparse"] = dict(fam.get("sparse") or {"k": 4, "loc": {"Weight": draw(st.sampled_from([300, 600, 850]))}}, names=keep, listed="second")
+        ovt = draw(st.sampled_from([None, [2.2, 0, 0, 2.2, 0, 0], [-2.1, 0, 0, 1, 0, 0], [-2.1, 0, 0, 1, 0, 0], [1, 0, 0, -2.2, 40, 0]]))
+        if ovt is not None:
+            # ... and a composite in the layer whose component transform is beyond the F2Dot14 range (either sign), its base outside the layer
+            spec["glyphs"].append({"name": "ovb", "width": 500, "unicodes": [], "components": [{"base": b2, "t": ovt}]})
+            fam["sparse"]["names"] = sorted(set(keep) | {"ovb"})
     return {"fam": fam, "module": draw(st.sampled_from(["ufoLib2", "defcon"])), "entry": entry, "opts": opts}
 
 
@@ -114,17 +131,22 @@ def sig_tt(font, name):
     return ("S", tuple(g.endPtsOfContours), tuple(f & 0x81 for f in g.flags))
 
 
-def sig_cff(font, name, closing_explicit=False):
+def sig_cff(font, name, closing_explicit=False, closing_stripped=False):
     """per contour the sequence of charstring drawing operators - what the variable-font merger aligns. Two readings, because a closed contour's last
     line may be written out or left implied: raw = the explicit operators; closing_explicit = plus the implied closing line where the last explicit
     point is not the start point. Masters are compatible when they agree in either reading (rounding can move a master's last point onto its first,
-    and a zero-length closing line in one master is written out by fontTools' point-to-segment conversion: neither changes what can be merged)."""
+    and a zero-length closing line in one master is written out by fontTools' point-to-segment conversion: neither changes what can be merged).
+    Third reading, closing_stripped = minus a written-out last line that ends on the start point (the same closed path as with the line left implied):
+    needed when both coincidences meet in one family - one master writes a zero-length closing line out, in another rounding moved the last point onto
+    the first so that no closing line exists in either form (thorough run, seed 5)."""
     out = []
     for c in otread.draw_cycles(font.getGlyphSet(), name):
         ops = [op for op, _ in c[1]]
         end = c[1][-1][1][-1] if c[1] else c[0]
         if closing_explicit and end != c[0]:
             ops.append("line")
+        if closing_stripped and len(ops) > 1 and ops[-1] == "line" and end == c[0]:
+            ops.pop()
         out.append(tuple(ops))
     return ("O", tuple(out)) if out else ("E",)
 
@@ -194,10 +216,10 @@ def run_case(case, ctx):
                 out = [reload(t) for t in ufo2ft.compileInterpolatableTTFs(fonts, **kw)]
             elif entry == "TTFsFromDS":
                 res = ufo2ft.compileInterpolatableTTFsFromDS(ds, **kw)
-                out = [reload(s.font) for s in res.sources]
+                out = [reload(s.font) for s in sorted(res.sources, key=lambda s_: (s_.name == "sparse", s_.name or ""))]  # full masters first, whatever the listing order
             else:
                 res = ufo2ft.compileInterpolatableOTFsFromDS(ds, **kw)
-                out = [reload(s.font) for s in res.sources]
+                out = [reload(s.font) for s in sorted(res.sources, key=lambda s_: (s_.name == "sparse", s_.name or ""))]
     except Cu2QuError:
         raise Discard("cu2qu could not find a common approximation")
     ttf = entry.startswith("TTF")
@@ -219,6 +241,9 @@ def run_case(case, ctx):
         if len(vals) > 1 and not ttf:
             alt = {i: sig_cff(f, n, closing_explicit=True) for i, f in enumerate(out) if n in f.getGlyphOrder()}
             avals = {s_ for i, s_ in alt.items() if not (sparse and i >= nfull and s_ == ("E",) and not in_layer)}
+            if len(avals) > 1:
+                alt = {i: sig_cff(f, n, closing_stripped=True) for i, f in enumerate(out) if n in f.getGlyphOrder()}
+                avals = {s_ for i, s_ in alt.items() if not (sparse and i >= nfull and s_ == ("E",) and not in_layer)}
             if len(avals) <= 1:
                 vals = avals
                 ctx.count("cff-glyphs-compatible-modulo-explicit-closing-line")
@@ -253,6 +278,8 @@ def run_case(case, ctx):
         ctx.label("sparse-master")
         if fam["sparse"].get("own_ufo"):
             ctx.label("sparse-master-is-its-own-ufo")
+        if fam["sparse"].get("listed") == "second":
+            ctx.label("sparse-source-listed-between-the-masters")
     # master fidelity (TrueType): every full master renders its own source within the C02 bound - a slip that bends all masters the same way
     # (or fills a master from another master's glyphs) keeps them compatible but not faithful
     if ttf:
@@ -262,6 +289,7 @@ def run_case(case, ctx):
         mspecs = F.master_specs(fam)
         skipped = set(case["opts"].get("skipExportGlyphs", []))
         upm = fam["base"]["info"].get("unitsPerEm", 1000)
+        gi_all = [R.glyph_index(ms__) for ms__ in mspecs[:nfull]]
         for i in range(nfull):
             gi_m = R.glyph_index(mspecs[i])
             glyf = out[i]["glyf"]
@@ -279,6 +307,15 @@ def run_case(case, ctx):
                 if bad is not None:
                     raise Violation("a compiled master does not render its own source master", master=i, glyph=n, tolerance=tolm, worst_point=bad[1], options=case["opts"])
                 ctx.count("master-glyphs-compared-with-their-source")
+                # a pure composite whose 2x2 is the same in every master and fits F2Dot14 (entries within [-2, 2]) has no reason to be decomposed
+                g_src = [gi_k.get(n) for gi_k in gi_all]
+                if (not case["opts"] and not fam["base"].get("lib", {}).get("com.github.googlei18n.ufo2ft.filters") and all(g_ and g_.get("components") and not g_.get("contours") for g_ in g_src)
+                        and len({tuple(tuple(c_["t"][:4]) for c_ in g_["components"]) for g_ in g_src}) == 1
+                        and all(-2 <= v_ <= 2 for c_ in g_src[0]["components"] for v_ in c_["t"][:4])):
+                    if not glyf[n].isComposite() or [c_.glyphName for c_ in glyf[n].components] != [c_["base"] for c_ in g_src[i]["components"]]:
+                        raise Violation("a pure composite with matching, representable component matrices was not kept as a composite of the same bases", master=i, glyph=n,
+                                        components=[(c_["base"], c_["t"][:4]) for c_ in g_src[i]["components"]])
+                    ctx.count("composites-checked-to-stay-composite")
     # classification
     cubic = any(p[2] == "curve" for g in fam["base"]["glyphs"] for c in g.get("contours", []) for p in c)
     if cubic:
@@ -292,6 +329,10 @@ def run_case(case, ctx):
         ctx.label("zero-length-line-in-one-master")
     ctx.label("ttf" if ttf else "otf")
     ctx.label("entry=" + entry)
+    if any(g["name"] == "mixo" for g in fam["base"]["glyphs"]):
+        ctx.label("mixed-glyph-and-its-base-outside-a-sparse-source-listed-second")
+    if any(g["name"] == "ovb" for g in fam["base"]["glyphs"]):
+        ctx.label("overflowing-component-in-sparse-layer")
     if any(g["name"] == "trb" for g in fam["base"]["glyphs"]):
         ctx.label("base-interpolated-twice-at-sparse-location")
     # would single-master conversion have chosen different spline lengths?
